@@ -61,7 +61,7 @@ func (p *Program) GraphOfInl(fi *FuncInfo) *Graph {
 	type work struct {
 		b     *cfg.Block
 		stack []*FuncInfo
-		from  int // first node index to look at (the continuation of an expanded call starts with the node holding it)
+		from  int  // first node index to look at (the continuation of an expanded call starts with the node holding it)
 		tail  bool // the blocks belong to the anchor or to a helper expanded in tail position (`return helper(...)`)
 	}
 	var queue []work
